@@ -22,8 +22,8 @@ RULE = ('exhaustive over the finite table: every allowed extra-argument name of 
         'only at PutObject / CompleteMultipartUpload together with ChecksumType=FULL_OBJECT and the matching ChecksumAlgorithm on the '
         'create/part requests; CRC32 default under when_supported; disallowed names raise before any request; the when_supported table is run a second time with the s3transfer loggers at DEBUG.  non-trivial = a cell in '
         'which at least one operation was compared; distinct = distinct (front-end, method, mode, argument set)')
-ASSUMPTIONS = ['HeadObject issued by a copy addresses the SOURCE object: only the statement\'s mapped copy-source names (and what the '
-               'library chooses to add) are demanded there, destination-side names are not',
+ASSUMPTIONS = ['HeadObject issued by a copy addresses the SOURCE object: only the statement\'s mapped copy-source names, RequestPayer and '
+               'ExpectedBucketOwner (which it has under the same name) are demanded there; destination-side encryption / metadata names are not',
                'checked against the botocore version installed in /venv (1.43.x)']
 CASE_TIMEOUT = 600.0
 
@@ -106,6 +106,7 @@ class Harness:
         self.mgr = TransferManager(self.client, self.cfg, osutil=self.osu)
         self.n = 0
         self.bucket = 'bkt'
+        self.source_client = None  # a SEPARATE client for the source object of copies (copy(..., source_client=...)), when set
         if fail_part:
             self.s3.api_fail_ops = {'UploadPart', 'UploadPartCopy'}
 
@@ -175,7 +176,8 @@ class Harness:
             elif method == 'copy':
                 self.s3.api_sizes[('srcbkt', key)] = size
                 self.last_copy_source = {'Bucket': 'srcbkt', 'Key': key}
-                f = self.mgr.copy(self.last_copy_source, self.bucket, key, extra_args=dict(extra), subscribers=subs)
+                kw = {'source_client': self.source_client} if self.source_client is not None else {}
+                f = self.mgr.copy(self.last_copy_source, self.bucket, key, extra_args=dict(extra), subscribers=subs, **kw)
             else:
                 f = self.mgr.delete(self.bucket, key, extra_args=dict(extra), subscribers=subs)
         except Exception as e:  # noqa
@@ -228,6 +230,9 @@ def check_cell(fe, method, mode, extra, calls, checksum_mode, provide_size, err,
                     if params.get(HEAD_MAP[a]) != v:
                         out.append(V(f'{ctx}: HeadObject on the copy source did not receive {HEAD_MAP[a]} (mapped from {a})',
                                      sym='missing-mapped', op=op, arg=a, **mech0))
+                elif a in ('RequestPayer', 'ExpectedBucketOwner') and a in members and params.get(a) != v:
+                    # names HeadObject has under the SAME name and which say nothing about the object's content or encryption
+                    out.append(V(f'{ctx}: HeadObject has a parameter {a} but did not receive it', sym='missing', op=op, arg=a, **mech0))
                 continue
             if a in FULL:
                 should = op in ('PutObject', 'CompleteMultipartUpload')
@@ -343,6 +348,10 @@ def gen_cases(tier, seed):
             sub = [c for c in cells if c[1] != 'multi-fail' and (cm == 'when_supported' or c[0] == 'upload')]
             k = {'vfbucket--usw2-az1--x-s3': 0, 'vf.dotted.bucket-name': 1}[bname]
             cases.append({'type': 'manager', 'checksum_mode': cm, 'fail_part': False, 'bucket': bname, 'cells': [list(c) for c in sub[k::3]]})
+    # copies whose source is read through a SEPARATE client (copy(..., source_client=other)): the same routing
+    sub = [c for c in cells if c[0] == 'copy' and c[1] != 'multi-fail']
+    for i in range(2):
+        cases.append({'type': 'manager', 'checksum_mode': 'when_supported', 'fail_part': False, 'source_client': True, 'cells': [list(c) for c in sub[i::2]]})
     cases.append({'type': 'reject'})
     cases.append({'type': 'reject_other'})
     cases.append({'type': 'legacy'})
@@ -356,6 +365,8 @@ def run_manager_cells(case):
     h = Harness(case['checksum_mode'], case['fail_part'])
     if case.get('bucket'):
         h.bucket = case['bucket']  # a bucket name of another class (an S3 Express directory bucket, a dotted name)
+    if case.get('source_client'):
+        h.source_client = h.s3.make_client(case['checksum_mode'], 'https')  # copies read their source through another client
     viol = []
     stats = {'cells': 0, 'ops_compared': 0}
     keys = set()
